@@ -86,7 +86,7 @@ let reason_name r = match r with
   | R1_unprewritten -> "R1_unprewritten" | R1_ts_start -> "R1_ts_start" | R1_ts_mincommit -> "R1_ts_mincommit"
   | R1_ts_tso -> "R1_ts_tso" | R1_secondary_first -> "R1_secondary_first" | R1_key_not_mutation -> "R1_key_not_mutation"
   | R2_rollback_after_commit -> "R2_rollback_after_commit" | R2_commit_after_rollback -> "R2_commit_after_rollback"
-  | R3_resolve_unreported -> "R3_resolve_unreported" | R3_wrong_primary -> "R3_wrong_primary" | R3_csl_unlisted -> "R3_csl_unlisted"
+  | R3_resolve_unreported -> "R3_resolve_unreported" | R3_wrong_primary -> "R3_wrong_primary" | R3_csl_unlisted -> "R3_csl_unlisted" | R3_force_unjustified -> "R3_force_unjustified"
   | R4_expire_live_lock -> "R4_expire_live_lock"
   | R5_hb_primary -> "R5_hb_primary" | R5_hb_ttl_decrease -> "R5_hb_ttl_decrease" | R5_hb_ttl_age -> "R5_hb_ttl_age"
   | R5_hb_after_end -> "R5_hb_after_end"
